@@ -6,12 +6,15 @@ import (
 	"context"
 	"errors"
 	"fmt"
+	"github.com/enfein/mieru/v3/apis/trafficpattern"
 	"github.com/enfein/mieru/v3/pkg/appctl/appctlcommon"
+	"github.com/enfein/mieru/v3/pkg/common"
 	"github.com/enfein/mieru/v3/pkg/protocol"
 	"net"
 	"strconv"
 	"strings"
 	"sync"
+	"sync/atomic"
 	"time"
 
 	"github.com/enfein/mieru/v3/apis/client"
@@ -51,6 +54,11 @@ type Config struct {
 	// request together with the first application bytes in ONE caller-owned
 	// buffer that is overwritten as soon as Write returns.
 	RawClient bool `json:"rawClient,omitempty"`
+	// ServerMux: the server is a protocol.Mux assembled exactly as apis/server
+	// does it (same calls, same order) but owned by the harness, so that the
+	// user list can be reloaded while it runs (Env.ReloadUsers), which the
+	// apis/server facade does not offer.
+	ServerMux bool `json:"serverMux,omitempty"`
 	// Quotas[i] (days, megabytes pairs) are attached to server user i.
 	Quotas map[int][][2]int32 `json:"quotas,omitempty"`
 }
@@ -63,6 +71,7 @@ type Env struct {
 	Server server.Server
 	Client client.Client
 	RawMux *protocol.Mux
+	SrvMux *protocol.Mux // set when Cfg.ServerMux
 
 	mu       sync.Mutex
 	srvConns map[int]chan *ServerConn
@@ -175,6 +184,16 @@ func StartServer(cfg Config, sn *simnet.StreamNet, pn *simnet.PacketNet) (*Env, 
 	if e.PNet == nil {
 		e.PNet = simnet.NewPacketNet()
 	}
+	if cfg.ServerMux {
+		ms, err := newMuxServer(cfg.ServerConfigProto(), e.SNet, simnet.ServerFactory{N: e.PNet})
+		if err != nil {
+			return nil, err
+		}
+		e.Server, e.SrvMux = ms, ms.mux
+		e.acceptWG.Add(1)
+		go e.acceptLoop()
+		return e, nil
+	}
 	e.Server = server.NewServer()
 	if err := e.Server.Store(&server.ServerConfig{
 		Config:                cfg.ServerConfigProto(),
@@ -189,6 +208,72 @@ func StartServer(cfg Config, sn *simnet.StreamNet, pn *simnet.PacketNet) (*Env, 
 	e.acceptWG.Add(1)
 	go e.acceptLoop()
 	return e, nil
+}
+
+// muxServer is apis/server's mieruServer with the mux exposed.
+type muxServer struct {
+	mux     *protocol.Mux
+	running atomic.Bool
+}
+
+func newMuxServer(cfg *pb.ServerConfig, slf *simnet.StreamNet, plf simnet.ServerFactory) (*muxServer, error) {
+	ms := &muxServer{mux: protocol.NewMux(false)}
+	ms.mux.SetStreamListenerFactory(slf)
+	ms.mux.SetPacketListenerFactory(plf)
+	tp, err := trafficpattern.NewConfig(cfg.TrafficPattern)
+	if err != nil {
+		return nil, err
+	}
+	ms.mux.SetTrafficPattern(tp).
+		SetServerUsers(appctlcommon.UserListToMap(cfg.GetUsers())).
+		SetServerUserHintIsMandatory(cfg.GetAdvancedSettings().GetUserHintIsMandatory())
+	mtu := common.DefaultMTU
+	if cfg.GetMtu() != 0 {
+		mtu = int(cfg.GetMtu())
+	}
+	endpoints, err := appctlcommon.PortBindingsToUnderlayProperties(cfg.GetPortBindings(), mtu)
+	if err != nil {
+		return nil, err
+	}
+	ms.mux.SetEndpoints(endpoints)
+	if err := ms.mux.Start(); err != nil {
+		return nil, err
+	}
+	ms.running.Store(true)
+	return ms, nil
+}
+
+func (ms *muxServer) Load() (*server.ServerConfig, error) { return nil, server.ErrNoServerConfig }
+func (ms *muxServer) Store(*server.ServerConfig) error    { return server.ErrStoreServerConfigAfterStart }
+func (ms *muxServer) Start() error                        { return nil }
+func (ms *muxServer) IsRunning() bool                     { return ms.running.Load() }
+func (ms *muxServer) Stop() error {
+	ms.running.Store(false)
+	return ms.mux.Close()
+}
+func (ms *muxServer) Accept() (net.Conn, *model.Request, error) {
+	conn, err := ms.mux.Accept()
+	if err != nil {
+		return nil, nil, err
+	}
+	common.SetReadTimeout(conn, 10*time.Second)
+	defer common.SetReadTimeout(conn, 0)
+	req := &model.Request{}
+	if err := req.ReadFromSocks5(conn); err != nil {
+		return nil, nil, err
+	}
+	return conn, req, nil
+}
+
+// ReloadUsers replaces the server's user list while it runs (what the
+// management RPC "reload" does with a changed configuration). Only with
+// Cfg.ServerMux. It returns when the reload has completed.
+func (e *Env) ReloadUsers(users []UserSpec) {
+	var list []*pb.User
+	for _, u := range users {
+		list = append(list, &pb.User{Name: proto.String(u.Name), Password: proto.String(u.Password)})
+	}
+	e.SrvMux.SetServerUsers(appctlcommon.UserListToMap(list))
 }
 
 // StartClient starts the client half of the environment.
